@@ -305,7 +305,7 @@ def main(tier):
     obligations = discharged = paths = queries = vq = 0
     stime = 0.0
     fns, models_used = set(), set()
-    vac, samples, per = [], [], {}
+    vac, samples, per, vacuous = [], [], {}, []
     for name, (out, st) in res.items():
         h = byname[name]
         obligations += 1
@@ -320,9 +320,6 @@ def main(tier):
                      "pruned_branches": st["pruned"], "outcomes": out.outcomes, "solver_time_s": round(st["solver_time"], 2)}
         if out.paths == 0:
             raise Inconclusive("harness %s explored no path (precondition unsatisfiable: vacuous)" % name)
-        for k in h.need:
-            if not out.witness.get(k):
-                raise Inconclusive("vacuity witness missing in %s: %s" % (name, k))
         vac += ["%s: %s" % (name, k) for k in sorted(out.witness)]
         bad = False
         seen = set()
@@ -338,7 +335,13 @@ def main(tier):
             rep.violation(key, "%s: %s — real code: %s" % (name, v["what"], json.dumps(detail["real"], default=str)[:300]), detail)
             bad = True
         if not bad:
+            # a harness whose assertions hold must also show its twins reachable (a violated harness explains a missing one)
+            for k in h.need:
+                if not out.witness.get(k):
+                    vacuous.append("vacuity witness missing in %s: %s" % (name, k))
             discharged += 1
+    if vacuous and not rep.new:
+        raise Inconclusive("; ".join(vacuous[:5]))
     units = sorted(set(h.unit for h in hs))
     from . import c03_table
     cov = {
@@ -375,7 +378,8 @@ def main(tier):
         "os page size is a power of two given by page_size_bits in {12, 14, 16}",
         "ObjectHashMap: keys passed by WaitLists are addresses of live heap objects: multiples of 8, never 0 (EMPTY) or 1 (DELETED); value type instantiated with u64; table operations run under the WaitLists mutex (sequential)",
     ]
-    common.write_evidence(PID, tier, "proof", cov, assumptions, time.time() - t0, len(rep.new))
+    # the schema wants discharged >= 1 at level proof: a run in which every selected obligation is violated proves nothing
+    common.write_evidence(PID, tier, "proof" if discharged else "other", cov, assumptions, time.time() - t0, len(rep.new))
     log("[C03] %d/%d obligations discharged, %d paths, %d queries, solver %.0fs" % (discharged, obligations, paths, queries + vq, stime))
     return rep.exit_code()
 
